@@ -531,7 +531,11 @@ static unsigned char* ensure(printbuffer * const p, size_t needed)
             return NULL;
         }
 
-        memcpy(newbuffer, p->buffer, p->offset + 1);
+        if (p->length > 0)
+        {
+            /* an empty buffer (cJSON_PrintBuffered with prebuffer 0) has no byte that could be copied */
+            memcpy(newbuffer, p->buffer, p->offset + 1);
+        }
         p->hooks.deallocate(p->buffer);
     }
     p->length = newsize;
